@@ -179,6 +179,9 @@ func (e *SpecEnv) lookupIdent(name string) Term {
 	if t, ok := e.bound[name]; ok {
 		return t
 	}
+	if comp, ok := e.fx.reg.ghostVars[name]; ok {
+		return Term{S: e.fx.H(e.cur, comp), Sort: e.fx.reg.compSort[comp]}
+	}
 	switch name {
 	case "nil":
 		return Term{S: "nil", Sort: nilSort}
@@ -461,6 +464,36 @@ func (e *SpecEnv) trCall(x *ast.CallExpr) Term {
 			return Term{S: sel(fx.H(e.cur, al), sterm), Sort: "Bool"}
 		}
 		return Term{S: and(not(sel(fx.H(e.old, al), sterm)), sel(fx.H(e.cur, al), sterm)), Sort: "Bool"}
+	case "captured":
+		// captured(fn, "funcKey$n", "var"): the value variable var had when closure fn (literal funcKey$n) was created
+		need(3)
+		fnv := e.tr(args[0])
+		lk, _ := strconv.Unquote(exprString(args[1]))
+		vn, _ := strconv.Unquote(exprString(args[2]))
+		li := fx.ctx.funcs[lk]
+		if li == nil || li.Lit == nil {
+			e.fail("captured: unknown literal %q", lk)
+		}
+		lfx := &FuncExec{ctx: fx.ctx, reg: fx.reg, pkg: li.Pkg, info: li.Pkg.TypesInfo, fi: li}
+		for _, v := range lfx.freeVars(li.Lit) {
+			if v.Name() == vn {
+				uf := "cap_" + sanitize(lk) + "_" + vn
+				vs := fx.reg.SortOf(v.Type())
+				fx.reg.declFun(uf, fmt.Sprintf("(declare-fun %s (Fn) %s)", uf, vs))
+				return Term{S: "(" + uf + " " + fnv.S + ")", Sort: vs, T: v.Type()}
+			}
+		}
+		e.fail("captured: literal %s does not capture %s", lk, vn)
+	case "fncode":
+		// fncode(fn) == litcode("funcKey$n"): fn is a closure of that literal
+		need(1)
+		fnv := e.tr(args[0])
+		fx.reg.declFun("fn_code", "(declare-fun fn_code (Fn) Int)")
+		return Term{S: "(fn_code " + fnv.S + ")", Sort: "Int"}
+	case "litcode":
+		need(1)
+		lk, _ := strconv.Unquote(exprString(args[0]))
+		return Term{S: fmt.Sprint(fx.ctx.litCode(lk)), Sort: "Int"}
 	case "sliceskept":
 		// sliceskept([]T): every backing array that existed in the old state is unchanged
 		need(1)
@@ -490,6 +523,13 @@ func (e *SpecEnv) trCall(x *ast.CallExpr) Term {
 		ks, _ := arraySorts(s.Sort)
 		k := e.coerce(e.tr(args[1]), ks)
 		return Term{S: store(s.S, k.S, "false"), Sort: s.Sort}
+	case "update":
+		need(3)
+		f := e.tr(args[0])
+		ks, vs := arraySorts(f.Sort)
+		k := e.coerce(e.tr(args[1]), ks)
+		v := e.coerce(e.tr(args[2]), vs)
+		return Term{S: store(f.S, k.S, v.S), Sort: f.Sort}
 	case "emptyset":
 		need(1)
 		srt, _ := fx.typeFromString(exprString(args[0]), e.pkgOrDefault())
